@@ -109,6 +109,7 @@ def own_bounds(c, name="self"):
 
 
 class AssumeH(Harness):
+    xcheck = 2
     name = "AtLeast.assume"
     function = "AtLeast.assume"
     functions = ["AtLeast.assume", ("puan", "variable.assume"), ("puan", "variable.__init__"), ("puan", "Bounds.__init__"),
